@@ -749,3 +749,30 @@ def c10l(ctx):
               fail='the clipped tile is pasted onto a transparent canvas with itself as mask: semi-transparent pixels inside the permitted area are altered')
     res = [x for x in fn.walk() if is_call(x, 'ImageSource')]
     ctx.check(bool(res) and all(same(x.args[0], 'result') for x in res), 'mask_image_source_from_coverage:returns-canvas', 'the composed canvas is what is returned', fn)
+
+
+@rule('C10.m', floor=2)
+def c10m(ctx):
+    """the limit that is enforced is the limit that was given: the geometry of a `limited_to` answer becomes the clip geometry as it
+    is -- the polygon, the multi polygon of the parsed polygons, or the rectangle of a bbox.  It is not simplified, buffered or replaced
+    by a hull on the way (a simplified outline lets pixels outside the permitted area through, or cuts permitted ones)"""
+    fn = ctx.fn('mapproxy/util/coverage.py:load_limited_to')
+    LOSSY = ('simplify', 'buffer', 'convex_hull', 'envelope', 'minimum_rotated_rectangle', 'simplify_geom', 'unary_union', 'cascaded_union')
+    bad = []
+    for x in fn.walk():
+        if isinstance(x, ast.Call):
+            nm = simple_name(x) or ''
+            if nm in LOSSY:
+                bad.append(nm + '()')
+            for k in x.keywords:
+                if k.arg == 'simplify' and const_value(k.value, 0) is not False:
+                    bad.append('%s(simplify=%s)' % (nm, unparse(k.value)))
+            if nm == 'build_multipolygon' and len(x.args) > 1 and const_value(x.args[1], 0) is not False:
+                bad.append('build_multipolygon(.., %s)' % unparse(x.args[1]))
+        elif isinstance(x, ast.Attribute) and x.attr in ('convex_hull', 'envelope'):
+            bad.append('.' + x.attr)
+    ctx.check(not bad, 'load_limited_to:geometry-as-given', 'the limit geometry is not simplified / buffered / replaced by a hull', fn,
+              fail='load_limited_to alters the geometry of the limit (%s): the clip edge is not where the authorisation put it' % ', '.join(sorted(set(bad))))
+    rets = [r for r in returns_of(fn.node) if r.value is not None]
+    ok = bool(rets) and all(is_call(r.value, 'GeomCoverage') and const_value(keyword(r.value, 'clip', 2), 0) is True for r in rets)
+    ctx.check(ok, 'load_limited_to:clipping-coverage', 'the limit is a clipping GeomCoverage', fn)
